@@ -11,13 +11,15 @@ conditioning factor of the tolerance:
 
     x, constants            E = 0
     u + w, u - w            E = E_u + E_w + M(v)
-    u * w                   E = M(w) E_u + M(u) E_w + M(u) M(w)
+    u * w                   E = M(w) E_u + M(u) E_w + M(u) M(w) + eps E_u E_w
     f(u)   (named function) E = max|f'(u)| E_u + floor_f + M(v) + max|u f'(u)|
     tan, cot, sec, csc, tanh, coth, sech, csch: value from mpmath's function, E from the quotient
                             the class forms (sin/cos, cos/sin, 1/cos, ...; division as below)
-    u ** p                  via exp(p log u), the route the class takes (log(u): E_u/m(u) + L + 1,
-                            L = max|ln|u|| + max|arg u| (pi when a real part is <= 0))
-    u / w                   u * w**-1
+    1 / u                   E = E_u/m(u)^2 + M(v) (1 + M(u)/m(u))     (conjugate / (z1^2 + z2^2))
+    u ** k, integer k       the binary multiplication scheme (products as above); 1/u first if k < 0
+    u ** p, other p         via exp(p log u), the route the class takes (log(u): E_u/m(u) + L + 1,
+                            L = max|ln|u|| + max|arg u|); every real part must be positive
+    u / w                   u * (1/w)
 
 M(.) / m(.) = largest / smallest modulus of the two idempotent components (the max-norm is
 sub-multiplicative, and |z1|, |z2| <= M).  floor_f = 1 for the inverse functions that are formed
@@ -155,25 +157,45 @@ class Evaluator(object):
 
     def mul(self, u, w):
         v = EV(u.a * w.a, u.b * w.b)
-        v.e = w.M * u.e + u.M * w.e + u.M * w.M
+        v.e = w.M * u.e + u.M * w.e + u.M * w.M + EPS * u.e * w.e      # last: second-order term
         return v
 
+    def inverse(self, u, what='div'):
+        """1/u as the class forms it: conjugate(u) / (z1^2 + z2^2); z1^2 + z2^2 = u_a u_b carries the
+        relative error eps (|z1|^2 + |z2|^2)/|u_a u_b| <= 2 eps M/m."""
+        self._note_log_arg(what, u)
+        v = EV(1 / u.a, 1 / u.b)
+        v.e = u.e / u.m / u.m + v.M * (1.0 + u.M / u.m)
+        return v
+
+    def ipower(self, u, k, what='powi'):
+        """Integer power by the binary multiplication scheme the class uses (single valued)."""
+        if k < 0:
+            return self.ipower(self.inverse(u, what), -k, what)
+        if u.m > 0:
+            self._note_log_arg(what, u)          # bookkeeping of the regimes only
+        result = const(1.0)
+        base = u
+        while k > 0:
+            if k % 2 == 1:
+                result = self.mul(result, base)
+            base = self.mul(base, base)
+            k //= 2
+        return result
+
     def power(self, u, p, what='pow'):
-        """u ** p, p a Python int / float / complex or an EV.  Value: the single-valued power for
-        integer p, the principal branch otherwise (then every real part must be positive)."""
+        """u ** p, p a Python int / float / complex or an EV.  Integer-valued real p: ring operations.
+        Otherwise exp(p log u) on the principal branch (every real part must then be positive)."""
+        if isinstance(p, int) or (isinstance(p, float) and p == int(p) and abs(p) < 1024):
+            return self.ipower(u, int(p), what)
         neg = self._note_log_arg(what, u)
-        integer = isinstance(p, int) or (isinstance(p, float) and p == int(p) and abs(p) < 64)
-        if integer:
-            k = int(p)
-            v = EV(u.a ** k, u.b ** k)
+        if neg:
+            raise IdemDomainError('non-integer power of a quantity with real part <= 0')
+        if isinstance(p, EV):
+            v = EV(mp.exp(p.a * mp.log(u.a)), mp.exp(p.b * mp.log(u.b)))
         else:
-            if neg:
-                raise IdemDomainError('non-integer power of a quantity with real part <= 0')
-            if isinstance(p, EV):
-                v = EV(mp.exp(p.a * mp.log(u.a)), mp.exp(p.b * mp.log(u.b)))
-            else:
-                pm = mpc(p.real, p.imag) if isinstance(p, complex) else mp.mpf(float(p))
-                v = EV(mp.exp(pm * mp.log(u.a)), mp.exp(pm * mp.log(u.b)))
+            pm = mpc(p.real, p.imag) if isinstance(p, complex) else mp.mpf(float(p))
+            v = EV(mp.exp(pm * mp.log(u.a)), mp.exp(pm * mp.log(u.b)))
         L = self._log_size(u, neg)
         e_t = u.e / u.m + L + 1.0
         if isinstance(p, EV):
@@ -197,7 +219,7 @@ class Evaluator(object):
         return v
 
     def div(self, u, w, what='div'):
-        return self.mul(u, self.power(w, -1, what=what))
+        return self.mul(u, self.inverse(w, what))
 
     # ---- named functions -----------------------------------------------------------
     def unary(self, name, u):
